@@ -355,6 +355,18 @@ func (e *evaluator) eval(v ssa.Value, en env, depth int) (any, error) {
 			return nil, fmt.Errorf("helper %s does not return one value", callee)
 		}
 		return e.eval(ret.Results[0], cen, depth+1)
+	case *ssa.MakeSlice:
+		// make([]string, 0, n): the empty slice that the following appends fill
+		if n, ok := x.Len.(*ssa.Const); ok && n.Value != nil && n.Value.Kind() == constant.Int {
+			if k, _ := constant.Int64Val(n.Value); k == 0 {
+				if sl, isSl := x.Type().Underlying().(*types.Slice); isSl {
+					if b, isB := sl.Elem().Underlying().(*types.Basic); isB && b.Info()&types.IsString != 0 {
+						return []string{}, nil
+					}
+				}
+			}
+		}
+		return nil, fmt.Errorf("make of a non-empty slice")
 	case *ssa.Global:
 		return nil, fmt.Errorf("global %s", x.Name())
 	}
